@@ -5,7 +5,7 @@ From LV Require Import Base.Bytes Base.Sx Model.Obj Model.DocQ Gen.Crypto
   Model.Crypto.Word Model.Crypto.MD5 Model.Crypto.RC4 Model.Crypto.PKCS5 Model.Crypto.Handler Model.Crypto.Concrete
   Spec.Crypto.Iso Spec.Crypto.IsoConcrete
   Proofs.CryptoProofs Proofs.CryptoProofsFilter Proofs.CryptoProofsObject Proofs.CryptoProofsDoc Proofs.IsoProofs Proofs.IsoProofsData
-  Proofs.IsoProofsObj Proofs.IsoProofsFilter Proofs.IsoProofsAuth Proofs.IsoProofsDoc Proofs.IsoProofsRT Proofs.IsoProofsDoc2 Proofs.IsoProofsDoc6.
+  Proofs.IsoProofsObj Proofs.IsoProofsFilter Proofs.IsoProofsAuth Proofs.IsoProofsDoc Proofs.IsoProofsRT Proofs.IsoProofsDoc2 Proofs.IsoProofsDoc6 Proofs.IsoProofsDoc7.
 Local Open Scope N_scope.
 
 (* the Gallina MD5 yields 16 bytes: the one fact about MD5 the refinement theorems use *)
@@ -256,4 +256,16 @@ Proof.
     + reflexivity.
   - constructor; try reflexivity; [|apply ex_doc_objs_ok].
     intros s Hs. inversion Hs; subst s. cbn [ex_doc d_objects map fst In]. intros [H|[H|[H|[]]]]; discriminate H.
+Qed.
+
+Lemma ex_version_ok6 :
+  IsoProofsDoc7.version_ok6 (EV5 false [(KS, CF_AESV3)] (zeros 32) KS KS (bs "owner") (bs "user") 2052) /\
+  IsoProofsDoc7.version_ok6 (ER5 true [(KP, CF_Identity); (KS, CF_AESV3)] (zeros 32) KS N_Identity [] (bs "user") 0).
+Proof.
+  split.
+  - split; [reflexivity|]. split; [reflexivity|]. split; [constructor; [intros []|constructor]|].
+    split; [reflexivity|]. split; right; vm_compute; discriminate.
+  - split; [reflexivity|]. split; [reflexivity|]. split.
+    + constructor; [cbn [map fst In]; intros [H|[]]; discriminate H|]. constructor; [intros []|constructor].
+    + split; [reflexivity|]. split; [right; vm_compute; discriminate|left; reflexivity].
 Qed.
